@@ -342,6 +342,28 @@ def coq_property(pid, timeout=1500):
     return res
 
 
+def coq_properties(pids, timeout=1500):
+    """several property files for one claim (e.g. "C01" and "C01_parser"): merged coq_property result"""
+    out = None
+    for pid in pids:
+        if not os.path.exists(os.path.join(COQ, "Properties", "Properties_%s.v" % pid)):
+            continue
+        r = coq_property(pid, timeout)
+        if out is None:
+            out = r
+            out["file"] = r["file"]
+        else:
+            out["ok"] = out["ok"] and r["ok"]
+            out["log"] += "\n" + r["log"]
+            out["theorems"] += r["theorems"]
+            out["failed"] += r["failed"]
+            out["file"] += " " + r["file"]
+            if r.get("broken_at"):
+                out.setdefault("broken_at", [])
+                out["broken_at"] += r["broken_at"]
+    return out
+
+
 def forbidden_scan():
     """The development must contain no Admitted/admit/Axiom/Parameter/... (returns offending lines)."""
     bad = []
@@ -538,7 +560,8 @@ def proof_coverage(ctx, cres, extra_tb=()):
     ctx.coverage.update({
         "obligations": len(th),
         "discharged": sum(1 for t in th if t["ok"]),
-        "checker_cmd": "cd coq && coq_makefile -f _CoqProject -o Makefile.coq && make -f Makefile.coq -k -j16 %so && coqc -Q . Wbxml %s" % (cres["file"], cres["file"]),
+        "checker_cmd": "cd coq && coq_makefile -f _CoqProject -o Makefile.coq && " + " && ".join(
+            "make -f Makefile.coq -k -j16 %so && coqc -Q . Wbxml %s" % (f, f) for f in cres["file"].split(" ")),
         "trusted_base": tb,
         "theorems": [t["name"] for t in th],
     })
